@@ -350,6 +350,10 @@ impl<'tcx> Cx<'tcx> {
         );
         if matches!(kind, DefKind::Fn | DefKind::AssocFn) {
             let _ = write!(out, ",\"vis\":{}", esc(&format!("{:?}", tcx.visibility(did))));
+            if let Some(ldid) = did.as_local() {
+                // `pub fn` inside a private module that nothing re-exports is not part of the crate's API
+                let _ = write!(out, ",\"exported\":{}", tcx.effective_visibilities(()).is_reachable(ldid));
+            }
             let sig = tcx.fn_sig(did).instantiate_identity().skip_norm_wip();
             let _ = write!(out, ",\"sig\":{}", esc(&format!("{}", sig)));
         }
